@@ -222,8 +222,8 @@ func c03PhylipHeader(in []byte) (n, l int64, ok bool) {
 // c03PhylipHeaderLines lists every line of the input that consists of exactly
 // two integers: the only places where a further alignment of a stream can
 // declare its size.
-func c03PhylipHeaderLines(in []byte) (hs [][2]int64) {
-	for _, line := range bytes.Split(in, []byte{'\n'}) {
+func c03PhylipHeaderLines(in []byte) (hs [][3]int64) {
+	for li, line := range bytes.Split(in, []byte{'\n'}) {
 		// a NUL inside the line is read as nothing or as a blank (NUL is an ordinary input byte, see the
 		// assumptions: how the lexers pass over it is not judged)
 		for _, v := range [][]byte{line, bytes.ReplaceAll(line, []byte{0}, nil), bytes.ReplaceAll(line, []byte{0}, []byte{' '})} {
@@ -234,7 +234,7 @@ func c03PhylipHeaderLines(in []byte) (hs [][2]int64) {
 			n, e1 := strconv.ParseInt(string(f[0]), 10, 64)
 			l, e2 := strconv.ParseInt(string(f[1]), 10, 64)
 			if e1 == nil && e2 == nil {
-				hs = append(hs, [2]int64{n, l})
+				hs = append(hs, [3]int64{n, l, int64(li)}) // with the number of the line
 			}
 		}
 	}
@@ -508,6 +508,13 @@ func (k *c03Checker) run() string {
 			out = "ok-then-error"
 		}
 	}
+	lastHeaderLine := int64(0) // line of the header that declared the previous alignment (the first: line 0 or the first non-blank one)
+	for li, line := range bytes.Split(k.in, []byte{'\n'}) {
+		if len(bytes.Fields(line)) > 0 {
+			lastHeaderLine = int64(li)
+			break
+		}
+	}
 	for i, al := range res.als {
 		n, l, ok := k.wellFormed(al, true)
 		if !ok {
@@ -523,15 +530,27 @@ func (k *c03Checker) run() string {
 					out = "bad"
 				}
 			} else {
+				// the alignments of a stream come in the order of their header lines: alignment #i is declared
+				// by a line after the one that declared alignment #i-1 (the first by the first line)
 				match, fewer := false, false
 				for _, h := range c03PhylipHeaderLines(k.in) {
-					match = match || (h[0] == int64(n) && h[1] == int64(l))
-					fewer = fewer || (h[0] > int64(n) && h[1] == int64(l))
+					if h[2] <= lastHeaderLine {
+						continue
+					}
+					if h[0] == int64(n) && h[1] == int64(l) {
+						match, lastHeaderLine = true, h[2]
+						break
+					}
+					if h[0] > int64(n) && h[1] == int64(l) && cs.Ign != align.IGNORE_NONE {
+						// a duplicate-name policy may have dropped rows: this line may be the header
+						fewer, lastHeaderLine = true, h[2]
+						break
+					}
 				}
 				if !match && fewer && cs.Ign != align.IGNORE_NONE {
 					c.Skip(c03SkipPolicyCount)
 				} else if !match {
-					k.viol("header-count/later-alignment", fmt.Sprintf("alignment #%d of the stream is %d x %d but no line of the input declares these counts", i+1, n, l))
+					k.viol("header-count/later-alignment", fmt.Sprintf("alignment #%d of the stream is %d x %d but no line after the header of the previous alignment declares these counts", i+1, n, l))
 					out = "bad"
 				}
 			}
